@@ -400,3 +400,15 @@ _ADD7 = {
 }
 for _p, _t in _ADD7.items():
     META[_p]['text'] = META[_p]['text'] + _t
+
+_ADD8 = {
+    'C05': ' A setting stored by a public set_<x>() method is written by that setter and the constructor only: cleanup / initialize do not reset the error strategy (R5.7).',
+    'C07': ' A pause may not repeat a notification: the notification-shape rule of C04 / C06 is shared.',
+    'C09': ' No container created in a class body of the statistics module is changed through instances, also through a field bound to it without a copy (R9.10).',
+    'C10': ' Shared class state of the statistics module (R10.9).',
+    'C11': ' Shared class state of the statistics module (R11.10); the comparisons of clock values decide the order of the warm-up reset and a model event of the same instant (rule shared with C01-C04 / C16).',
+    'C14': ' For the counting distributions the analysed range of draw() must not exclude the support minimum, which carries probability mass (R14.5).',
+    'C15': ' The support-minimum part of R14.5 is shared: a sampler that never returns 0 cannot follow probability(0) > 0.',
+}
+for _p, _t in _ADD8.items():
+    META[_p]['text'] = META[_p]['text'] + _t
